@@ -28,6 +28,26 @@ PROPS = {
         assumptions=MODEL_ASSUMPTIONS,
         required_features={"quick": ["ep_illegal", "ep_legal", "castle_legal", "castle_illegal", "promo_legal", "pos_double_check", "full_tuple_sweeps"]},
     ),
+    "C03": dict(plan(), rule="every legal move of every streamed position (same sources as C01); non-trivial = position with a special move or clock >= 99; distinct = full position fingerprint", explanation="successor of every legal move compared field by field (64 squares, side, rights, mark, both counters) with the model's apply(); as_fen of the successor compared with the model writer", assumptions=MODEL_ASSUMPTIONS,
+        required_features={"quick": ["mv_castle_k", "mv_castle_q", "mv_enpassant_capture", "mv_promo_capture", "promo_captures_home_rook_with_right", "king_captures_home_rook_with_right", "rook_takes_rook_home_to_home", "clock_99_to_100", "clock_149_to_150", "clock_saturated", "number_saturated", "ep_white_edge", "ep_black_edge"]}),
+    "C04": dict(plan(), rule="every pseudo-legal move (legal or leaving the king attacked) and the null move of every streamed position, plus random nested apply/undo walks of depth <= 8; non-trivial = position where some semilegal move is illegal or special; distinct = full position fingerprint", explanation="full snapshot (raw + hash + 16 occupancy sets) before make_move_unchecked compared with the state after the matching unmake; refused make_raw (TryUnchecked rollback) and refused Uci make_raw must leave the board identical; nested LIFO walks compare at every level", assumptions=["snapshot oracle: no reference model is involved in the verdict (the model only supplies the moves to try)"] + MODEL_ASSUMPTIONS[2:],
+        required_features={"quick": ["null_moves", "pos_with_illegal_semilegal_undone", "nested_illegal_rollbacks", "undo_EnPassant", "undo_CastleK", "undo_CastleQ", "undo_PromoQ", "undo_at_counter_limit"]}),
+    "C05": dict(plan(), rule="streamed positions with every legal successor through make_move / Uci / San entry points, refused applications, chain push/pop histories, walkers and nested unchecked walks, all under the apply/undo observer; non-trivial = position with a special move; distinct = (squares, side, rights, mark) fingerprint", explanation="observer hook inside do_make_move/do_unmake_move recomputes hash and the 16 sets from the squares after EVERY internal apply/undo; boundary checks on every returned board; transposition table (same position => same hash); from-scratch hash shown XOR-linear in the stated features and blind to counters; all single-feature key differences enumerated", assumptions=MODEL_ASSUMPTIONS,
+        required_features={"quick": ["hook_make_events", "hook_unmake_events", "chain_histories", "path_EnPassant_capture", "path_CastleK", "path_CastleQ", "key_differences_checked"]}),
+    "C06": dict(plan(), rule="exhaustive Move::new sweep (532,480 tuples) plus streamed positions; per position all kinds x destinations from every own man, and on a 1-in-4 sample every well-formed tuple of both colours; non-trivial = position in check or with a special pseudo-legal move", explanation="five semilegal generators compared as multisets with the model's pseudo-legal set and its filters; partitions compared as multiset sums; is_semilegal on tuples compared with membership; Move::new compared with an independent geometric predicate on every tuple", assumptions=MODEL_ASSUMPTIONS,
+        required_features={"quick": ["full_tuple_sweeps", "pseudo_castle", "pseudo_castle_into_attack", "pseudo_ep", "castle_right_but_unavailable", "wellformed_tuples_checked"]}),
+    "C07": dict(plan(), rule="streamed positions plus a few-men material x clock-threshold grid and the three-man space; non-trivial = position with an outcome, <= 3 men besides kings, or clock >= 99", explanation="calc_outcome, calc_draw_simple, has_legal_moves, is_check compared with the model's classification (precedence included)", assumptions=MODEL_ASSUMPTIONS,
+        required_features={"quick": ["checkmate", "stalemate", "stalemate_with_pseudo_moves", "insufficient", "moves75", "moves50", "clock_99", "clock_100", "clock_149", "clock_150", "forced_with_draw_reason_also_applying", "no_legal_move_but_pseudo_en_passant"]}),
+    "C08": dict(plan(), rule="valid positions (stream), arbitrary raw boards with rank-consistent marks (random + exhaustive sub-spaces), and FEN texts (hand-written variants + mutated valid records); distinct = full position / text fingerprint", explanation="two writers (library, model) and two readers must agree in all four pairings; strict canonical-form recogniser on every produced text; parse-format-parse stability for every accepted text", assumptions=MODEL_ASSUMPTIONS,
+        required_features={"quick": ["with_mark", "with_edge_mark", "five_digit_counter", "text_accepted_noncanonical", "exh_counter_values", "exh_rank_patterns"]}),
+    "C10": dict(plan(), rule="every pseudo-legal move of streamed positions (round trip) and the complete 20,480-string space on a sample of positions (all positions with marks or rights are oversampled); non-trivial = position with a special pseudo-legal move", explanation="to_string/from_uci/into_move round trip incl. kind; semilegal and legal readers compared with existence of a model move with the same squares and promotion; null move refused through seven entry points", assumptions=MODEL_ASSUMPTIONS,
+        required_features={"quick": ["string_space_sweeps", "roundtrip_EnPassant", "roundtrip_CastleK", "roundtrip_CastleQ", "roundtrip_Double", "roundtrip_PromoN", "king_at_home_without_castling"]}),
+    "C11": dict(plan(), rule="raw boards: scattered and family positions (valid or not), one-mutation neighbours of valid positions (17th man, missing/extra king, back-rank pawn, mark on each of 64 squares, side flip, 16 rights sets, displaced home pieces, blocked/replaced marked pawn), uniformly random cells, three-man x rights x marks; non-trivial = rejected board or board changed by normalisation", explanation="acceptance compared with the model's set of applicable rejection conditions; reported reason must be in that set (with payload); accepted result compared with the model normalisation; idempotence and derived state checked", assumptions=MODEL_ASSUMPTIONS,
+        required_features={"quick": ["reason_invalid_enpassant", "reason_too_many_pieces_white", "reason_too_many_pieces_black", "reason_no_king_white", "reason_no_king_black", "reason_too_many_kings_white", "reason_too_many_kings_black", "reason_invalid_pawn", "reason_opponent_king_attacked", "rights_dropped", "mark_dropped", "mark_kept", "several_reasons_apply"]}),
+    "C16": dict(plan(), rule="all 128 (square, colour) queries on every streamed position and on the three-man space; distinct = (squares, side, rights, mark) fingerprint of positions with at least one attacked square", explanation="is_cell_attacked, cell_attackers, is_check, checkers compared with ray-walking from each man; is_opponent_king_attacked false on every validated board", assumptions=MODEL_ASSUMPTIONS,
+        required_features={"quick": ["double_check", "white_pawn_attacker", "black_pawn_attacker", "square_with_3plus_attackers"]}),
+    "C18": dict(plan(), rule="every streamed position against its colour-swapped vertical mirror, and (without castling rights) its left-right mirror; non-trivial = position that is not its own image and has a special move or check", explanation="metamorphic: library against library on mirrored inputs (legal and semilegal move sets, is_check, has_legal_moves, calc_outcome with winner swapped, attack maps); no reference model in the verdict", assumptions=["the harness's mirror maps on positions and moves are correct (they are involutions, checked in the self-test)"] + MODEL_ASSUMPTIONS[2:],
+        required_features={"quick": ["vmirror_pairs", "hmirror_pairs", "black_to_move", "with_mark", "with_castling_rights", "pos_with_special_move"]}),
 }
 
 LEVEL_TEXT = {}
